@@ -19,11 +19,11 @@ import (
 
 // fnEntry is one native function reachable from the global object of a fresh runtime.
 type fnEntry struct {
-	Path     string `json:"path"`            // ES5 expression denoting the function
-	Owner    string `json:"owner"`           // expression denoting the object that holds it
-	Name     string `json:"name"`            // property name on the owner
-	Accessor string `json:"acc,omitempty"`   // "get" / "set" when it is an accessor function
-	Home     string `json:"home,omitempty"`  // receiver family the function is written for
+	Path     string `json:"path"`           // ES5 expression denoting the function
+	Owner    string `json:"owner"`          // expression denoting the object that holds it
+	Name     string `json:"name"`           // property name on the owner
+	Accessor string `json:"acc,omitempty"`  // "get" / "set" when it is an accessor function
+	Home     string `json:"home,omitempty"` // receiver family the function is written for
 }
 
 // The walk is breadth first over own property names (sorted), [[Prototype]] links and accessor
@@ -506,8 +506,8 @@ func triage(ps []escaped) {
 }
 
 var builtinFacet = harness.Register(&harness.Facet[builtinCase]{
-	Name: "builtin-surface",
-	Rule: "enumeration × rapid: every native function reachable from the global object of a fresh runtime (discovered by a breadth-first walk over own property names, [[Prototype]] links and accessor get/set functions — not a hard-coded list) × every receiver kind (primitives, boundary numbers, ASCII/astral/invalid-UTF-8 strings, plain/sparse/cyclic/frozen arrays and objects, array-likes with odd lengths ≤ 1e4, functions, bound functions, Date/invalid Date, RegExp, Error, wrapper objects, arguments objects, objects whose valueOf/toString return each kind, throw, recurse or are absent, throwing getters, null-prototype objects, the global object, Math, JSON, the built-in prototypes, bridged Go maps/slices/structs/functions) × N argument tuples of 0–3 values of the same kinds (drawn by rapid from the case's seed; thorough adds callbacks that re-enter the function) × five ways (script f.call, script new, Value.Call, Otto.Call incl. 'new ' form and native Go arguments, Object.Call / Object.Get / Object.Set on the owner). One case = one function × one receiver group on one runtime (stack depth limit 64, poll budget) inside a worker subprocess. Oracle: every call returns a value or an error; no Go panic crosses the API; the worker neither dies nor stops answering. The per-call counters are in facet builtin-surface/calls: non-trivial = the receiver is not of the family the method is written for, or an argument is a hostile object; distinct by (function path, receiver kind, argument kinds, way)",
+	Name:  "builtin-surface",
+	Rule:  "enumeration × rapid: every native function reachable from the global object of a fresh runtime (discovered by a breadth-first walk over own property names, [[Prototype]] links and accessor get/set functions — not a hard-coded list) × every receiver kind (primitives, boundary numbers, ASCII/astral/invalid-UTF-8 strings, plain/sparse/cyclic/frozen arrays and objects, array-likes with odd lengths ≤ 1e4, functions, bound functions, Date/invalid Date, RegExp, Error, wrapper objects, arguments objects, objects whose valueOf/toString return each kind, throw, recurse or are absent, throwing getters, null-prototype objects, the global object, Math, JSON, the built-in prototypes, bridged Go maps/slices/structs/functions) × N argument tuples of 0–3 values of the same kinds (drawn by rapid from the case's seed; thorough adds callbacks that re-enter the function) × five ways (script f.call, script new, Value.Call, Otto.Call incl. 'new ' form and native Go arguments, Object.Call / Object.Get / Object.Set on the owner). One case = one function × one receiver group on one runtime (stack depth limit 64, poll budget) inside a worker subprocess. Oracle: every call returns a value or an error; no Go panic crosses the API; the worker neither dies nor stops answering. The per-call counters are in facet builtin-surface/calls: non-trivial = the receiver is not of the family the method is written for, or an argument is a hostile object; distinct by (function path, receiver kind, argument kinds, way)",
 	Check: checkBuiltin,
 })
 
@@ -516,7 +516,7 @@ func builtinCases() ([]builtinCase, string) {
 	if errText != "" {
 		return nil, errText
 	}
-	tuples := harness.N(3, 4) // thorough: 16 shards × 4 tuples with different seeds
+	tuples := harness.N(3, 8) // thorough: 16 shards × 8 tuples with different seeds
 	var cases []builtinCase
 	for fi, fn := range fns {
 		if _, skip := skipFunctions[fn.Path]; skip {
